@@ -493,22 +493,36 @@ def _param_is_len(P, fn, idx):
     return True
 
 
+def small_int_vars(ev, cond):
+    """Free variables of 8-bit type in a term: i8 loop accumulators, i8/u8 parameters, folds with an i8/u8 seed."""
+    out = []
+    for s in subterms(cond):
+        if s.op == "loop" and s.a[2].op == "const" and len(s.a[2].a) > 2 and s.a[2].a[2] in ("i8", "u8"):
+            out.append((s, s.a[2].a[2]))
+        elif s.op == "param" and isinstance(s.a[0], int) and s.a[0] < len(ev.fn.locals) and ev.fn.locals[s.a[0]].get("ty") in ("i8", "u8"):
+            out.append((s, ev.fn.locals[s.a[0]]["ty"]))
+        elif s.op == "call" and B.cname(s) == "Iterator::fold" and len(s.a[1]) == 3 and s.a[1][1].op == "const" and len(s.a[1][1].a) > 2 and s.a[1][1].a[2] in ("i8", "u8"):
+            out.append((s, s.a[1][1].a[2]))
+    return out
+
+
 def _fold_i8(ev, cond, t):
-    """Single i8 loop accumulator: fold the assert condition for all 256 values."""
+    """Single 8-bit variable (loop accumulator, fold result or parameter): fold the assert condition for all 256 values."""
     if cond is None:
         return None
-    accs = [s for s in subterms(cond) if s.op == "loop" and s.a[2].op == "const" and len(s.a[2].a) > 2 and s.a[2].a[2] == "i8"]
+    accs = small_int_vars(ev, cond)
     if len(accs) != 1:
         return None
-    acc = accs[0]
-    for v in range(-128, 128):
+    acc, ty = accs[0]
+    rng = range(-128, 128) if ty == "i8" else range(0, 256)
+    for v in rng:
         try:
-            r = F.eval_int(cond, {acc: (v, 8, True)})
+            r = F.eval_int(cond, {acc: (v, 8, ty == "i8")})
         except Exception:
             return None
         if bool(r[0]) != t["expected"]:
             return None
-    return ("fold256", "condition holds for all 256 values of the i8 accumulator (exhaustive folding)")
+    return ("fold256", "condition holds for all 256 values of the %s %s (exhaustive folding)" % (ty, {"loop": "accumulator", "param": "parameter", "call": "fold result"}[acc.op]))
 
 
 NEGLIGIBLE_SUBJECTS = ("HashToPoint::hash_to_point", "HashToScalar::hash_to_scalar", "BlsSignatureProof::compute_y", "BlsSignCrypt::compute_w", "BlsElGamal::message_generator")
